@@ -44,6 +44,9 @@ def one_average(rng_seed, trial_kind, walker_type, norb, ne, nchol, dt, spin_dep
     pd = dict(prop.init_prop_data(trial, wd, hd, init_walkers=walkers))
     pd["e_estimate"] = jnp.array(0.0)
     pd["pop_control_ene_shift"] = jnp.array(eshift)
+    # incoming weights as they are in the middle of a run (not all one): the window applies to the step's factor, not to the product
+    w_in = np.array([(1.0, 0.5, 2.0 ** -11, 3.0, 0.125, 20.0)[k % 6] for k in range(n)])
+    pd["weights"] = jnp.array(w_in)
     fields = jnp.array(nodes)
     out = prop.propagate(trial, hd, {k: v for k, v in pd.items()}, fields, wd)
     # complex importance function, from public quantities (definition in the property statement)
@@ -71,12 +74,14 @@ def one_average(rng_seed, trial_kind, walker_type, norb, ne, nchol, dt, spin_dep
     want_w = np.where(np.isnan(raw), 0.0, raw)
     want_w = np.where(want_w < 1e-3, 0.0, want_w)
     want_w = np.where(want_w > 100.0, 0.0, want_w)
+    want_w = want_w * w_in
+    want_w = np.where(want_w > 100.0, 0.0, want_w)       # runaway cap on the running weight
     wbad = None
     got_w = np.array(out["weights"])
-    margin = np.minimum(np.abs(raw - 1e-3), np.abs(raw - 100.0)) > 1e-9
+    margin = (np.minimum(np.abs(raw - 1e-3), np.abs(raw - 100.0)) > 1e-9) & (np.abs(raw * w_in - 100.0) > 1e-7)
     if np.abs(got_w - want_w)[margin].max(initial=0.0) > 1e-9:
         k = int(np.argmax(np.abs(got_w - want_w) * margin))
-        wbad = {"node": k, "applied_weight": float(got_w[k]), "abs_I_max0cos": float(want_w[k]), "raw": float(raw[k])}
+        wbad = {"node": k, "incoming_weight": float(w_in[k]), "outgoing_weight": float(got_w[k]), "incoming_times_windowed_factor": float(want_w[k]), "raw_factor": float(raw[k])}
     return res, wbad
 
 
